@@ -893,7 +893,7 @@ func (it *interp) memStore(st *state, k string, v AV) {
 			st.mem[k] = &Const{Zero: sv.T}
 			for i := 0; i < stt.NumFields() && i < len(sv.Fields); i++ {
 				if sv.Fields[i] != nil {
-					it.memStore(st, k+"."+stt.Field(i).Name(), sv.Fields[i])
+					it.memStore(st, k+"."+fieldName(stt.Field(i)), sv.Fields[i])
 				}
 			}
 		}
@@ -944,7 +944,7 @@ func fieldType(t types.Type, f string) types.Type {
 	}
 	if stt, ok := derefType(t).Underlying().(*types.Struct); ok {
 		for i := 0; i < stt.NumFields(); i++ {
-			if stt.Field(i).Name() == f {
+			if fieldName(stt.Field(i)) == f {
 				return stt.Field(i).Type()
 			}
 		}
@@ -967,7 +967,7 @@ func (it *interp) load(st *state, ad *Addr, t types.Type) AV {
 		if has {
 			sv := &StructV{T: t, Fields: make([]AV, stt.NumFields())}
 			for i := 0; i < stt.NumFields(); i++ {
-				sv.Fields[i] = it.load(st, &Addr{K: pre + stt.Field(i).Name()}, stt.Field(i).Type())
+				sv.Fields[i] = it.load(st, &Addr{K: pre + fieldName(stt.Field(i))}, stt.Field(i).Type())
 			}
 			return sv
 		}
@@ -1011,7 +1011,7 @@ func (it *interp) project(base AV, f string, ft types.Type) AV {
 	case *StructV:
 		if stt, ok := b.T.Underlying().(*types.Struct); ok {
 			for i := 0; i < stt.NumFields(); i++ {
-				if stt.Field(i).Name() == f && b.Fields[i] != nil {
+				if fieldName(stt.Field(i)) == f && b.Fields[i] != nil {
 					return b.Fields[i]
 				}
 			}
@@ -1080,15 +1080,15 @@ func (it *interp) eval(st *state, fr *frame, v ssa.Value) AV {
 		}
 		return &Const{V: v.Value}
 	case *ssa.Parameter:
-		e := &Expr{Op: "param", Name: v.Name(), T: v.Type()}
+		e := &Expr{Op: "param", Name: paramName(v), T: v.Type()}
 		if x, ok := it.valLookup(e.Key()); ok {
 			return x
 		}
 		return e
 	case *ssa.FreeVar:
-		return &Addr{K: "FV:" + v.Name()}
+		return &Addr{K: "FV:" + paramName(v)}
 	case *ssa.Global:
-		return &Addr{K: "G:" + v.Pkg.Pkg.Name() + "." + v.Name()}
+		return &Addr{K: "G:" + v.Pkg.Pkg.Name() + "." + memberName(v)}
 	case *ssa.Function:
 		return &FuncV{Fn: v}
 	case *ssa.Builtin:
@@ -1142,7 +1142,7 @@ func (it *interp) evalInstr(st *state, fr *frame, in ssa.Value) AV {
 	case *ssa.FieldAddr:
 		base := it.eval(st, fr, v.X)
 		stt := derefType(v.X.Type()).Underlying().(*types.Struct)
-		fname := stt.Field(v.Field).Name()
+		fname := fieldName(stt.Field(v.Field))
 		if ad, ok := base.(*Addr); ok {
 			return &Addr{K: ad.K + "." + fname}
 		}
@@ -1150,7 +1150,7 @@ func (it *interp) evalInstr(st *state, fr *frame, in ssa.Value) AV {
 	case *ssa.Field:
 		base := it.eval(st, fr, v.X)
 		stt := v.X.Type().Underlying().(*types.Struct)
-		return it.project(base, stt.Field(v.Field).Name(), v.Type())
+		return it.project(base, fieldName(stt.Field(v.Field)), v.Type())
 	case *ssa.IndexAddr:
 		base := it.eval(st, fr, v.X)
 		idx := it.eval(st, fr, v.Index)
@@ -1461,7 +1461,7 @@ func (it *interp) calleeName(st *state, fr *frame, cc *ssa.CallCommon) (string, 
 }
 
 func typeString(t types.Type) string {
-	return types.TypeString(t, func(p *types.Package) string { return p.Name() })
+	return refTypeString(t)
 }
 
 // fnName: library functions get the short name; others the qualified SSA name.
@@ -1656,7 +1656,7 @@ func (p *Program) mayStore(fn *ssa.Function) map[string]bool {
 						if !ok {
 							break
 						}
-						parts = append([]string{fieldOf(fa).Name()}, parts...)
+						parts = append([]string{fieldName(fieldOf(fa))}, parts...)
 						if inner, ok := fa.X.(*ssa.FieldAddr); ok {
 							v = inner
 							continue
